@@ -165,3 +165,53 @@ def run(ctx):
     ctx.ob("C22.R4", W + ":WasmToIrCompiler.gen_binop", "the unsigned result is cast back to the wasm value type", bool(back), construct="cast-back")
     order = [n for n in walk_no_nested(fn) if isinstance(n, ast.Assign) and "self.pop_value" in norm(n.value)]
     ctx.ob("C22.R4", W + ":WasmToIrCompiler.gen_binop", "operands are popped right operand first (b, then a)", [norm(n.targets[0]) for n in order] == ["b", "a"], construct="pop-order")
+    _conditions(ctx)
+
+
+def _conditions(ctx):
+    """R6: wasm truthiness.  if / br_if / select take an i32 that is true iff non-zero (including negative)."""
+    from ..core import last_name
+    ctx.rule("C22.R6", "wasm conditions: a plain i32 operand is true iff it is != 0; if, br_if and select branch on the popped condition with the true target first; eqz compares with a zero of the operand's type", floor=7)
+    pc = ctx.fn(W, "WasmToIrCompiler.pop_condition")
+    site = W + ":WasmToIrCompiler.pop_condition"
+    rets = [r for r in ast.walk(pc) if isinstance(r, ast.Return) and isinstance(r.value, ast.Tuple) and len(r.value.elts) == 3]
+    ctx.need(len(rets) == 1, "pop_condition: construction of the (op, a, b) triple not found")
+    op, a, b = rets[0].value.elts
+    from .. import sym
+    env = sym.single_assign_env(pc)
+    bt = norm(sym.deep_inline(b, env))
+    at = norm(sym.deep_inline(a, env))
+    ctx.ob("C22.R6", site, "a plain value v becomes the comparison v != 0 (a negative i32 is true)", try_const(op) == "!=", construct="truthiness-op", node=rets[0], detail=norm(op))
+    ctx.ob("C22.R6", site, "the right-hand side is the i32 constant 0 and the left-hand side is the popped value", "ir.Const(0," in bt and "ir.i32" in bt and at == "self.stack.pop()", construct="truthiness-zero", detail="%s / %s" % (at, bt))
+    passthru = [r for r in ast.walk(pc) if isinstance(r, ast.Return) and r.value is not None and norm(sym.deep_inline(r.value, env)) == "self.stack.pop()"]
+    ctx.ob("C22.R6", site, "a pending comparison triple is handed on unchanged", len(passthru) == 1, construct="comparison-passthrough")
+    for q, want in (("WasmToIrCompiler.gen_br_if_instruction", "branch-target"), ("WasmToIrCompiler.gen_select_instruction", "select"), ("WasmToIrCompiler.gen_if_instruction", "if")):
+        fn = ctx.fn(W, q)
+        pops = [n for n in ast.walk(fn) if isinstance(n, ast.Assign) and isinstance(n.value, ast.Call) and last_name(n.value) == "pop_condition" and isinstance(n.targets[0], ast.Tuple)]
+        cj = [c for c in ast.walk(fn) if isinstance(c, ast.Call) and norm(c.func) == "ir.CJump"]
+        ok = len(pops) == 1 and len(cj) >= 1
+        if ok:
+            o, x, y = (norm(e) for e in pops[0].targets[0].elts)
+            ok = [norm(v) for v in cj[0].args[:3]] == [x, o, y]
+        ctx.ob("C22.R6", W + ":" + q, "the conditional jump is built from the popped (a, op, b) in that order", ok, construct="cjump-from-condition:" + want, detail=norm(cj[0])[:80] if cj else "")
+    bi = ctx.fn(W, "WasmToIrCompiler.gen_br_if_instruction")
+    cj = [c for c in ast.walk(bi) if isinstance(c, ast.Call) and norm(c.func) == "ir.CJump"]
+    tgt = [n for n in ast.walk(bi) if isinstance(n, ast.Assign) and isinstance(n.value, ast.Call) and last_name(n.value) == "get_jump_target_block"]
+    ok = bool(cj) and bool(tgt) and len(cj[0].args) == 5 and norm(cj[0].args[3]) == norm(tgt[0].targets[0]) and any(isinstance(c, ast.Call) and last_name(c) == "set_block" and norm(c.args[0]) == norm(cj[0].args[4]) for c in ast.walk(bi))
+    ctx.ob("C22.R6", W + ":WasmToIrCompiler.gen_br_if_instruction", "br_if: a true condition goes to the label's block, a false one falls through into a fresh block that becomes current", ok, construct="br-if-targets")
+    se = ctx.fn(W, "WasmToIrCompiler.gen_select_instruction")
+    pv = [n for n in walk_no_nested(se) if isinstance(n, ast.Assign) and isinstance(n.targets[0], ast.Tuple) and "self.pop_value()" in norm(n.value)]
+    cj = [c for c in ast.walk(se) if isinstance(c, ast.Call) and norm(c.func) == "ir.CJump"]
+    inc = [c for c in ast.walk(se) if isinstance(c, ast.Call) and last_name(c) == "set_incoming"]
+    ok = False
+    if len(pv) == 1 and cj and len(inc) == 2:
+        second, first = (norm(e) for e in pv[0].targets[0].elts)   # popped first = val2 (taken when the condition is false)
+        yes, no = norm(cj[0].args[3]), norm(cj[0].args[4])
+        m = {norm(c.args[0]): norm(c.args[1]) for c in inc}
+        ok = m.get(yes) == first and m.get(no) == second
+    ctx.ob("C22.R6", W + ":WasmToIrCompiler.gen_select_instruction", "select: the operand pushed first is chosen when the condition is true, the one pushed second when it is false", ok, construct="select-operands")
+    gc = ctx.fn(W, "WasmToIrCompiler.gen_cmpop")
+    ez = [n for n in walk_no_nested(gc) if isinstance(n, ast.If) and "eqz" in norm(n.test)]
+    ok = len(ez) == 1 and any(isinstance(s, ast.Assign) and norm(s.targets[0]) == "b" and "ir.Const(0," in norm(s.value) and "ir_typ" in norm(s.value) for s in ez[0].body) and \
+        any(isinstance(s, ast.Assign) and norm(s.targets[0]) == "a" and "pop_value" in norm(s.value) for s in ez[0].body)
+    ctx.ob("C22.R6", W + ":WasmToIrCompiler.gen_cmpop", "eqz compares the popped operand (left) with a zero constant of the operand's own type (right)", ok, construct="eqz-zero")
